@@ -247,7 +247,7 @@ def run(ctx):
             frames = frames[:rng.randrange(1, 7)]
             if not greeted and rng.random() < 0.5:
                 frames = [f for f in base_traffic(rng, tree, keys, cr, rn.lp.nonce) if f[0] == "hello"][:1] + frames
-            elif not greeted and not any(f[0] == "hello" for f in frames):
+            elif not greeted and not any(f[0].startswith("hello") for f in frames):
                 # out of protocol order: a perfectly valid new block (or a valid spend) ahead of any greeting; on a greeted
                 # connection it would be adopted and relayed, here the connection must be refused and nothing may change
                 head_ = rn.cm.coinstate.current_chain_hash
